@@ -1,4 +1,5 @@
-/-! C35: vocabulary of the header operations that the fact extractor recognises in `proxyRewrite`. -/
+/-! C35: vocabulary of the statements that the fact extractor recognises in `proxyRewrite`:
+the host-selection chain (`if … { out.URL.Host = … } else if …`) and the header operations. -/
 namespace Specter.C35
 
 /-- One header-affecting statement of `(*Gateway).proxyRewrite`. -/
@@ -8,6 +9,20 @@ inductive HOp where
   | setXForwarded                         -- preq.SetXForwarded()   (net/http/httputil)
   | setHostPort (k : String) (std : Nat)  -- if g.GatewayPort == std { Set(k, out.URL.Host) } else { Set(k, "%s:%d" out.URL.Host g.GatewayPort) }
   | setConst (k v : String)               -- out.Header.Set(k, v)
+  deriving Repr
+
+/-- A condition of the host-selection chain of `proxyRewrite` (what decides where `out.URL.Host` comes from). -/
+inductive HostCond where
+  | protoAtLeast (major minor : Nat)      -- in.ProtoAtLeast(major, minor)
+  | protoMajorEq (n : Nat)                -- in.ProtoMajor == n
+  | protoMajorGe (n : Nat)                -- in.ProtoMajor >= n
+  | tlsPresent                            -- in.TLS != nil
+  deriving Repr
+
+/-- Where a branch of the host-selection chain takes `out.URL.Host` from. -/
+inductive HostSrc where
+  | inHost                                -- in.Host   (Host header / :authority)
+  | sni                                   -- in.TLS.ServerName   (nil dereference when in.TLS == nil)
   deriving Repr
 
 end Specter.C35
